@@ -772,7 +772,28 @@ class LibMixin:
                 return i if data is None else self.getitem(data, i)
             size = concretize(size)
             if not isinstance(size, int):
-                raise Unsupported('rng.choice with symbolic size')
+                # symbolic sample size: an index function with range (and injectivity) axioms
+                zs, zn = zint(size), zint(n)
+                if self.branch(zs < 0):
+                    py_raise('ValueError', 'negative dimensions are not allowed')
+                if not replace:
+                    if self.branch(zn < zs):
+                        py_raise('ValueError', 'Cannot take a larger sample than population when replace is False')
+                if self.branch(z3.And(zs > 0, zn <= 0)):
+                    py_raise('ValueError', 'a cannot be empty unless no samples are taken')
+                IDX = z3.Function(self.fresh_name('sample'), z3.IntSort(), z3.IntSort())
+                t, t2 = z3.Int(self.fresh_name('t')), z3.Int(self.fresh_name('t2'))
+                self.assume(z3.ForAll([t], z3.Implies(z3.And(t >= 0, t < zs), z3.And(IDX(t) >= 0, IDX(t) < zn)),
+                                      patterns=[IDX(t)]))
+                if not replace:
+                    self.assume(z3.ForAll([t, t2], z3.Implies(z3.And(t >= 0, t < t2, t2 < zs), IDX(t) != IDX(t2)),
+                                          patterns=[z3.MultiPattern(IDX(t), IDX(t2))]))
+                rng.draws.append(('sample', IDX, (n, size)))
+                idxs = SList(size, lambda i: IDX(zint(i)))
+                if data is None:
+                    return idxs
+                dd = data
+                return SList(size, lambda i: self.getitem(dd, IDX(zint(i))))
             if size < 0:
                 py_raise('ValueError', 'negative dimensions are not allowed')
             if replace:
